@@ -79,6 +79,9 @@ int UtilContext::set_cpu_by_name(const char *name)
 {
   int n = 0;
 
+  // No CPU was selected: the default (MSP430) stays.
+  if (name == nullptr) { return 0; }
+
   while (cpu_list[n].name != nullptr)
   {
     if (strcasecmp(name, cpu_list[n].name) == 0)
